@@ -651,7 +651,7 @@ def rule_cli1(A: Analysis, rep):
     in_try = all(any(isinstance(a, ast.Try) and stmt_in(_stmt_of(c), a.body) for a in _ancestors(c)) for c in calls_main)
     rep.check(bool(calls_main) and in_try, "CLI1", "main inside try", fi.node, "", "main(args) is not inside the error-reporting try", deep=False)
     # decorated entry points
-    decorated = sorted(f.module.name.rsplit(".", 1)[1] for f in A.prog.functions.values() if "cli_command" in f.decorators)
+    decorated = sorted(f.module.name.rsplit(".", 1)[1] for f in A.prog.scan_functions if "cli_command" in f.decorators)
     rep.check(set(["run", "archive", "restore", "where", "clean", "gc"]) <= set(decorated), "CLI1", "all commands decorated", None,
               "", "commands wrapped by cli_command: %s" % decorated, deep=False)
     # no intermediate handler swallows ConductorError between report and cli_command (run path)
